@@ -108,7 +108,7 @@ func (ls *lockstep) step(i int, b Block) error {
 	delH := ls.f.HashesOf(b.Del)
 	proof := v.Proof(delH)
 	first := len(ls.f.Hashes)
-	adds, _ := mkLeaves(first, b.Add, func(k int) bool { return inSet(b.Rem, k) })
+	adds, _ := mkLeavesSalt(b.Salt, first, b.Add, func(k int) bool { return inSet(b.Rem, k) })
 	for _, in := range ls.insts {
 		if err := in.Apply(adds, delH, proof); err != nil {
 			return fmt.Errorf("block %d: %s rejected a valid block: %v", i, in.Cfg, err)
